@@ -158,10 +158,15 @@ func containsByte(s string, c byte) bool {
 
 // C16.numeral — tonumber and arithmetic coercion agree with R-num on every short string.
 //
-//verif:harness prop=C16 tier=quick qparams=n:2 tparams=n:3 bounds="every byte string of length <= n (2 quick / 3 thorough); R-num: blanks* (0x hex+ | decimal with optional fraction/exponent) blanks*; signed strings only checked for agreement of the two readers"
+//verif:harness prop=C16 tier=quick qparams=n:2 tparams=n:3 bounds="every byte string of length <= n (2 quick / 3 thorough; at length 3 only bytes < 0x80); R-num: blanks* (0x hex+ | decimal with optional fraction/exponent) blanks*; signed strings only checked for agreement of the two readers"
 func H_C16_numeral() {
 	n := VChoice(VParam("n", 2) + 1)
 	s := VStr("s", n)
+	if n >= 3 {
+		for i := 0; i < n; i++ {
+			VAssume(s[i] < 0x80) // 3-byte strings: ASCII only (bytes >= 0x80 are covered for lengths <= 2)
+		}
+	}
 	L := newL(Options{}, BaseLibName)
 	ok, val, cat := refNumeral(s)
 	// reader 1: tonumber
